@@ -4,6 +4,7 @@ import PlumpyModel.Fault.Proof6
 import PlumpyModel.Fault.Proof7
 import PlumpyModel.Fault.Proof12
 import PlumpyModel.Fault.Proof15
+import PlumpyModel.Fault.Proof19
 /-!
 # C03 — a failure in user code ends the process EXCEPTED, never half-transitioned
 
@@ -201,7 +202,8 @@ points after `close()` (`afterClose`, finding F18): once the fault has fired, in
 with the fault, its future raises the fault, it is closed, the cleanups ran exactly once and no transition is left in progress.
 (Hypothesis `hni`, needed for `on_terminated` / `on_close` only: the run did not end in an error of the state machine itself — a
 "cannot transition" or a failed assertion whose own failing transition is then hit by the fault, a second failure, which
-`transition_to` re-raises.  For the other ten hooks there is no hypothesis beyond the fault having fired.) -/
+`transition_to` re-raises.  For the other ten hooks there is no hypothesis beyond the fault having fired.  The hypothesis is always
+true: `C03_fault_never_meets_state_machine_error`; the statement without it is `C03_hook_fault_ends_excepted_unconditional`.) -/
 theorem C03_hook_fault_ends_excepted (P : Prog) (nf : Nat) (plan : Plan) (a : Arm) (evs : List Ev)
     (hm : mainHK a.hk = true) (hac : afterClose a = false)
     (hf : (runX P (initX nf plan (some a)) evs).fired = true)
@@ -254,7 +256,8 @@ other than `on_terminated` / `on_close` need no hypothesis on the final configur
 `on_terminated` / `on_close` raising before `super()` also run in the failing path of `transition_to`, where a second failure
 propagates — alternative `Bad` of the invariant `K`; `Bad` is absorbing, `C03_terminated_with_fault_stays`, so the hypothesis on the
 final configuration excludes it in every earlier one, and in every configuration that is not `Bad` the linking invariant holds,
-`Fault/Proof13 … Proof15`.) -/
+`Fault/Proof13 … Proof15`.  `Bad` is in fact unreachable, `Fault/Proof16 … Proof19`: the statement without the hypothesis on the final
+configuration is `C03_stepper_returns_after_hook_fault_unconditional`.) -/
 def C03_stepper_returns_after_hook_fault : Prop :=
   ∀ (P : Prog) (nf : Nat) (plan : Plan) (a : Arm) (evs : List Ev), mainHK a.hk = true → afterClose a = false →
     (runX P (initX nf plan (some a)) evs).fired = true → ¬ InternalError (runX P (initX nf plan (some a)) evs) →
@@ -410,6 +413,147 @@ theorem C03_playing_hook_fault_reported (N : Hook → FCfg → FCfg) (x : FCfg) 
         (playF N x).1.fired = true ∧ (playF N x).1.arm = none) :=
   ⟨fun ha => playF_onPlaying_before x ha hp, fun ha => playF_onPlaying_after x ha hp⟩
 
+/-! ### the state machine itself never fails: the hypothesis `¬ InternalError` above is always true
+
+The theorems above that cover `on_terminated` / `on_close` assume that the run "did not end in an error of the state machine itself"
+(`InternalError`: the state is EXCEPTED with a "cannot transition", a "future already resolved" or a failed assertion) — the only way
+the fault can be hit inside the FAILING path of `transition_to`, where a second failure propagates (alternative `Bad` of the invariant
+`K`).  `Fault/Proof16 … Proof19`: that never happens.  The three sources of such errors are excluded one by one:
+* `assert self._called == call_count` in `call_with_super_check`: every hook call, every transition and every notification leaves
+  `_called` as it found it, whether it returns or raises (`C03_called_balanced`; repair 6c8055d is what makes this true);
+* "future already resolved" in `on_finish / on_kill`: the future of a live process is pending or cancelled (`Inv2w`), and a
+  cancelled one is replaced;
+* "cannot transition": every state the model asks for is allowed from the current one — KILLED, EXCEPTED and RUNNING from every live
+  state; what a step function returned, from RUNNING (the stepping task is inside a step function only while the state is not
+  CREATED, and no state is ever CREATED again: invariant `IUP`);
+and an assertion failing at the top of a nested `transition_to` (a request from inside a transition) returns without changing the
+state.  So a transition of the model raises nothing at all (`C03_transition_raises_nothing`), `Bad` is unreachable
+(`C03_fault_never_meets_state_machine_error`) and the statements above hold without the hypothesis (`…_unconditional`).
+
+What is NOT true is `¬ InternalError` for every history: the model lets USER code raise the state machine's own exception types —
+`fail(AssertionError())`, a step function raising `InvalidStateError`, an awaitable failing with one — and then the process is, correctly,
+EXCEPTED with that exception (`C03_user_code_can_raise_the_state_machines_exceptions`).  The full statement for histories and programs
+that do not do that is `C03_no_internal_error` (a `def`, not proved); the part proved is `C03_no_internal_error_partial`. -/
+
+/-- **a transition of a live process to an allowed target raises nothing** (configuration level): from ANY configuration in which the
+invariant `K` holds and the process is live, for any target that is allowed from the current state, whatever the armed fault (any of
+the fifteen hooks, any occurrence, before or after `super()`, except the two points after `close()`) does in it and whatever the
+listeners request meanwhile: nothing propagates to the caller of `transition_to` — no "cannot transition", no `InvalidStateError`
+from the future, no failed `_called` assertion, and the fault itself is handled —, and the invariant holds afterwards WITHOUT the
+alternative `Bad` (`K2`).  This is `C03_transition_with_fault` with its escape clause removed. -/
+theorem C03_transition_raises_nothing (a0 : Arm) (n : Nat) (hac : afterClose a0 = false) (x : FCfg) (s : SObj) (hk : K a0 x)
+    (hl : terminal x.l.c.st.label = false) (hal : s.label ∈ allowed x.l.c.st.label) :
+    (transitionToF (fireNF n) x s).2 = none ∧ K2 a0 (transitionToF (fireNF n) x s).1 :=
+  ⟨(transitionToF_G (fireNF_nk hac n) (fireNF_cf n) x s hk hac hl hal).2,
+   (transitionToF_G (fireNF_nk hac n) (fireNF_cf n) x s hk hac hl hal).1⟩
+
+/-- **every hook entered through `call_with_super_check` leaves `_called` as it found it** (function level, no hypothesis at all): a
+whole `transition_to` — all its hooks, the failing path included, whether the fault fires in it or not, whether it returns or raises —
+and every notification of the listeners (with the requests they issue, nested transitions included) return with the call counter
+they were entered with; and none of them ever makes the state CREATED.  Hence the final `assert self._called == call_count` never
+fails. -/
+theorem C03_called_balanced (n : Nat) (x : FCfg) (s : SObj) (h : Hook) :
+    (transitionToF (fireNF n) x s).1.called = x.called ∧ (fireNF n h x).called = x.called ∧
+    ((transitionToF (fireNF n) x s).1.l.c.st.label = .created → x.l.c.st.label = .created) :=
+  ⟨(transitionToF_cf (fireNF_cf n) x s).called, (fireNF_cf n h x).called, (transitionToF_cf (fireNF_cf n) x s).ncr⟩
+
+/-- **the fault never meets an error of the state machine itself** — for every program, plan, history and every fault point except
+the two after `close()`: NO configuration of the run is `Bad` (the fault fired in `on_terminated` / `on_close` and the process is
+EXCEPTED with an error of the state machine itself).  So the hypothesis `hni` of `C03_hook_fault_ends_excepted`,
+`C03_stepper_returns_after_hook_fault_proved`, … excludes nothing that can happen. -/
+theorem C03_fault_never_meets_state_machine_error (P : Prog) (nf : Nat) (plan : Plan) (a : Arm) (evs : List Ev)
+    (hac : afterClose a = false) :
+    ¬ ((a.hk = .onTerminated ∨ a.hk = .onClose) ∧ (runX P (initX nf plan (some a)) evs).fired = true ∧
+        InternalError (runX P (initX nf plan (some a)) evs)) := by
+  rw [runX_armed]
+  intro ⟨h1, h2, e, he, hs⟩
+  exact runF_not_bad hac P nf plan evs ⟨h1, h2, e, he, hs⟩
+
+/-- **a fault in a lifecycle hook of a transition ends the process EXCEPTED with exactly that exception — no hypothesis on the
+run** (`C03_hook_fault_ends_excepted` for all twelve transition hooks without `hni`): for every program, plan, history and every
+fault point except the two after `close()` (F18), once the fault has fired: EXCEPTED with the fault, future raising it, closed,
+cleanups run once, no transition in progress. -/
+theorem C03_hook_fault_ends_excepted_unconditional (P : Prog) (nf : Nat) (plan : Plan) (a : Arm) (evs : List Ev)
+    (hm : mainHK a.hk = true) (hac : afterClose a = false)
+    (hf : (runX P (initX nf plan (some a)) evs).fired = true) :
+    GoodRun (runX P (initX nf plan (some a)) evs) :=
+  C03_hook_fault_ends_excepted P nf plan a evs hm hac hf
+    (fun h hi => C03_fault_never_meets_state_machine_error P nf plan a evs hac ⟨h, hf, hi⟩)
+
+/-- **no fault at any point ever breaks the agreement of the outcome reports — no hypothesis on the run**
+(`C03_fault_never_breaks_agreement` without `hni`): for every program, plan, history and every fault point other than the two after
+`close()`, in every configuration of the run: a live process has an unresolved future, is not closed and ran no cleanup; a terminated
+one is closed, ran its cleanups once and its future holds the outcome of its state object; no transition is left in progress. -/
+theorem C03_fault_never_breaks_agreement_unconditional (P : Prog) (nf : Nat) (plan : Plan) (a : Arm) (evs : List Ev)
+    (hac : afterClose a = false) :
+    Inv2w (runX P (initX nf plan (some a)) evs).l.c ∧ (runX P (initX nf plan (some a)) evs).l.trans = none := by
+  rw [runX_armed]
+  have h := (runF_KI hac P _ evs (initX_KI a nf plan)).k2
+  exact ⟨h.g.1, h.tr⟩
+
+/-- **the stepping task returns normally after a hook fault — every transition hook, no hypothesis on the run**
+(`C03_stepper_returns_after_hook_fault` with its hypothesis `¬ InternalError` discharged): for every program, plan, history and every
+fault in any of the twelve transition hooks, any occurrence, before or after `super()` except the two points after `close()`: once the
+fault has fired, finitely many wake-ups of the stepping task end `step_until_terminated()` normally. -/
+theorem C03_stepper_returns_after_hook_fault_unconditional (P : Prog) (nf : Nat) (plan : Plan) (a : Arm) (evs : List Ev)
+    (hm : mainHK a.hk = true) (hac : afterClose a = false)
+    (hf : (runX P (initX nf plan (some a)) evs).fired = true) :
+    ∃ n, (runF P (runX P (initX nf plan (some a)) evs) (List.replicate n .tick)).l.c.pc = .done :=
+  C03_stepper_returns_after_hook_fault_proved P nf plan a evs hm hac hf
+    (fun hi => C03_fault_never_meets_state_machine_error P nf plan a evs hac
+      ⟨by
+        have hg := C03_hook_fault_ends_excepted_unconditional P nf plan a evs hm hac hf
+        obtain ⟨e, he, hs⟩ := hi
+        rw [hg.1] at hs; cases hs
+        exact absurd he faultExc_not_internal, hf, hi⟩)
+
+/-- **the exception never escapes into the stepping task, and the task is never left blocked — every hook, no hypothesis on the run**
+(`C03_hook_fault_never_reaches_the_stepping_task_any_hook` without `hni`): the linking invariant `Inv10` of C02 holds in every
+configuration of every run with a fault at any point except the two after `close()`. -/
+theorem C03_hook_fault_never_reaches_the_stepping_task_unconditional (P : Prog) (nf : Nat) (plan : Plan) (a : Arm)
+    (evs : List Ev) (hac : afterClose a = false) :
+    Inv10 (runX P (initX nf plan (some a)) evs).l.c := by
+  rw [runX_armed]
+  exact (runF_jf2 hac P nf plan evs (runF_not_bad hac P nf plan evs)).old
+
+/-- user code that does not raise the state machine's own exception types: the step functions … -/
+def CleanProg (P : Prog) : Prop := ∀ fn args kw ctx e, (P fn args kw ctx).out = .raise e → ¬ Internal e
+
+/-- … and the events of the history (`fail(e)`, an awaitable completing with exception `e`) -/
+def CleanEv : Ev → Prop
+  | .fail e => ¬ Internal e
+  | .complete _ (.exc e) => ¬ Internal e
+  | _ => True
+
+/-- The statement "no run ends in an error of the state machine itself" in full: for every program and history in which USER code
+raises none of the state machine's own exception types, every plan and every armed fault (or none): the process is never EXCEPTED with
+a "cannot transition", an `InvalidStateError` or a failed assertion.  NOT PROVED (no counterexample either: exhaustive search over
+all histories of length ≤ 4 over ten events × sixty fault points, and of length ≤ 6 over six events × thirty fault points, × eight
+plans of the harness's process finds none).  Proved: `C03_no_internal_error_partial` (below) and, for the way such an error could arise inside the model —
+a transition raising it — `C03_transition_raises_nothing`.  Missing for the full statement: that before the fault fires (and in
+runs without a fault, which are runs of `runL`, another function) every exception that becomes the state object comes from user
+code — an invariant on the data that carries user exceptions (failed waiting futures, awaitables, parked wake-ups, the suspended
+step function) through all twins, and the same chain for `PM/Listener.lean`; and the two fault points after `close()`, where the
+invariant `K` does not hold (F18). -/
+def C03_no_internal_error : Prop :=
+  ∀ (P : Prog) (nf : Nat) (plan : Plan) (a : Option Arm) (evs : List Ev), CleanProg P → (∀ ev ∈ evs, CleanEv ev) →
+    ¬ InternalError (runX P (initX nf plan a) evs)
+
+/-- **no run in which a transition-hook fault has fired ends in an error of the state machine itself** (the part of
+`C03_no_internal_error` that is proved; it needs no hypothesis on the program or the history — even if user code raises the state
+machine's exception types): for every program, plan, history and every fault in any of the twelve transition hooks except the two
+points after `close()`, once the fault has fired the process is EXCEPTED with the fault, not with an error of the state machine.
+Missing: the configurations before the fault fires, pause / play hook faults, runs without a fault, the two points after `close()`
+(see `C03_no_internal_error`). -/
+theorem C03_no_internal_error_partial (P : Prog) (nf : Nat) (plan : Plan) (a : Arm) (evs : List Ev)
+    (hm : mainHK a.hk = true) (hac : afterClose a = false)
+    (hf : (runX P (initX nf plan (some a)) evs).fired = true) :
+    ¬ InternalError (runX P (initX nf plan (some a)) evs) := by
+  intro ⟨e, he, hs⟩
+  rw [(C03_hook_fault_ends_excepted_unconditional P nf plan a evs hm hac hf).1] at hs
+  cases hs
+  exact faultExc_not_internal he
+
 /-! ### witnesses and non-vacuity (concrete runs of the model, decided by the kernel; each is also a case of the harness) -/
 
 /-- the process of the harness: `run` (one await) continues with `s2(1, k=2)`, `s2` waits, `s3` (one await) returns 5 -/
@@ -470,6 +614,39 @@ example :
     let x := runX procC03 (initX 0 [] (some ⟨.onClose, 0, false⟩)) [.tick, .tick, .resume (some 7), .tick, .tick]
     afterClose ⟨.onClose, 0, false⟩ = false ∧ x.fired = true ∧ x.l.c.st = .excepted faultExc ∧ x.l.c.closed = true ∧
     x.l.c.cleanups = 1 ∧ x.l.c.pc = .done := by decide +kernel
+
+-- non-vacuity of the `…_unconditional` statements and of `C03_transition_raises_nothing`: the `on_terminated`-before-`super()` run
+-- above satisfies their hypotheses (no hypothesis on the final configuration is left); a transition hypothesis instance: the
+-- initial configuration is live, satisfies `K`, and RUNNING is allowed from CREATED
+example : mainHK .onTerminated = true ∧ afterClose ⟨.onTerminated, 0, false⟩ = false ∧
+    (runX procC03 (initX 0 [] (some ⟨.onTerminated, 0, false⟩)) [.tick, .pause, .tick, .kill]).fired = true :=
+  ⟨rfl, rfl, by decide +kernel⟩
+
+example : K ⟨.onRun, 0, false⟩ (initX 0 [] (some ⟨.onRun, 0, false⟩)) ∧
+    terminal (initX 0 [] (some ⟨.onRun, 0, false⟩)).l.c.st.label = false ∧
+    (SObj.running 0 [] []).label ∈ allowed (initX 0 [] (some ⟨.onRun, 0, false⟩)).l.c.st.label :=
+  ⟨initX_K _ 0 [], rfl, by decide⟩
+
+-- non-vacuity of `C03_no_internal_error`'s hypotheses: the harness's process and a history with a user failure are clean
+example : CleanProg procC03 ∧ (∀ ev ∈ [Ev.tick, .fail (.user 9)], CleanEv ev) := by
+  refine ⟨fun fn args kw ctx e h => ?_, fun ev hev => ?_⟩
+  · unfold procC03 at h
+    split at h
+    · cases h
+    · split at h <;> cases h
+  · simp only [List.mem_cons, List.mem_nil_iff, or_false] at hev
+    rcases hev with h | h <;> subst h
+    · trivial
+    · intro hi; rcases hi with h | h | ⟨a, b, h⟩ <;> cases h
+
+/-- **user code CAN make the process EXCEPTED with one of the state machine's exception types** (why `C03_no_internal_error` needs
+its hypotheses; a fact about the model's type of exceptions — and about plumpy: `proc.fail(AssertionError())` excepts the process with
+that `AssertionError`): `fail(assertion)` on the created process, with a fault armed that never fires, or none. -/
+theorem C03_user_code_can_raise_the_state_machines_exceptions :
+    InternalError (runX procC03 (initX 0 [] (some ⟨.onRun, 5, false⟩)) [.fail .assertion]) ∧
+    InternalError (runX procC03 (initX 0 [] none) [.fail .assertion]) ∧
+    ¬ CleanEv (.fail .assertion) :=
+  ⟨⟨.assertion, Or.inl rfl, by decide +kernel⟩, ⟨.assertion, Or.inl rfl, by decide +kernel⟩, fun h => h (Or.inl rfl)⟩
 
 /-- **finding F18 on whole runs (witness)**: `on_terminated` raising AFTER `super()` in the closing transition of the last step: the
 process is EXCEPTED with the fault while its future still holds the result of the FINISHED state it had entered — the two fault points
